@@ -82,10 +82,12 @@ class DBSpace(data_algebra.data_space.DataSpace):
         :param key: key to remove
         """
         assert isinstance(key, str)
+        if key not in self.description_map.keys():
+            raise KeyError(key)
+        self.db_handle.drop_table(key)  # forget the entry only once the table is gone
         del self.description_map[key]
         if key in self.eligable_for_auto_drop_list:
             self.eligable_for_auto_drop_list.remove(key)
-        self.db_handle.drop_table(key)
 
     def keys(self) -> Set[str]:
         """
